@@ -3,6 +3,7 @@
 
 pub mod evidence;
 pub mod findings;
+pub mod harness;
 pub mod rng;
 pub mod shrink;
 pub mod supervise;
